@@ -20,7 +20,8 @@ RULE = (
     "outsourced externals and HasRepr values that need an import, formatter-clean or not, black or a "
     "format-command) are run once in a real pytest session with create,fix,trim,update while a harness-side "
     "plugin records every call at the boundaries black.format_str / format-command subprocess / reading a "
-    "test file / ensure_import / DiscStorage.persist / rename of a -new file / open for writing / write / "
+    "test file / ensure_import / DiscStorage.persist / rename of a -new file / open for writing / write / close "
+    "(flush of the buffered data) / replace / "
     "SourceFile.new_code, during the tests and during session finish. Then, for *every* recorded call index and "
     "*every* fault kind applicable to that boundary (exception, OSError, non-zero exit, garbage output, "
     "valid-but-different output, correct output in a non-utf-8 encoding for files with non-ASCII text, write of a strict prefix followed by an error) one more session is run from a "
